@@ -3,7 +3,7 @@
 From Coq Require Import String.
 From Coq Require Import List Arith Bool ZArith NArith.
 Import ListNotations.
-From YP Require Import Base.Str Term.Term Term.Show Term.Fast Unify.Unify Unify.Fast Lang.Ast Comp.IR Comp.CompileClause Sem.Machine Sem.Sld Sem.SldR.
+From YP Require Import Base.Str Term.Term Term.Show Term.Fast Unify.Unify Unify.Fast Lang.Ast Lang.Front Comp.IR Comp.CompileClause Sem.Machine Sem.Sld Sem.SldR.
 Local Open Scope string_scope.
 Local Open Scope list_scope.
 
@@ -32,3 +32,10 @@ Definition run_sldr (depth : nat) (p : program) (name : str) (args : list term) 
 Definition run_both (depth : nat) (p : program) (qs : list (str * list term * nat)) (limit : nat) : obs :=
   OL (map (fun q => let '(name, args, nq) := q in
                     OL [run_ir depth p name args nq limit; run_sld depth p name args nq limit]) qs).
+
+(* the same from source TEXT: the program is what the model front end (Lang/Front.v: lexer, parser, visitor) reads *)
+Definition run_both_src (depth : nat) (src : str) (qs : list (str * list term * nat)) (limit : nat) : obs :=
+  match front src with
+  | Some p => run_both depth p qs limit
+  | None => otag "front-rejects" []
+  end.
